@@ -383,6 +383,40 @@ def run(ctx):
                   "(what the cw20 twin pulls: %s) are counted as vault money, the insurance top-up is too small by that amount and the fee transfers fail "
                   "when the payout exceeds the vault, while the cw20 twin succeeds" % (sized, sorted(pull_roots[root])[:2])))
 
+    # ---- R13.5 (second kind): on a chain that does track the attached coins the same inflation happens when a step sizes
+    # the top-up from the balance and forwards attached fee coins in the SAME response - the fee coins are still in the
+    # balance when it is read.  Decided without value reasoning, hence only the definite case: EVERY success path of the
+    # step that makes a balance-sized payout call also makes a fee-transfer call (then each such payout from a short
+    # vault is under-funded by the fees on native and fully funded on cw20).  (Round-10 seed C13m: the exact-close branch
+    # of the reversal paid the trader through the top-up helper.)  Today's increase reply has the payout and the fee
+    # transfer on one syntactic path as well, but also payout paths without a fee transfer (fees already paid by the
+    # reversal): not definite, not reported.
+    for ckey in sorted(em.chains):
+        root = ckey.split(">")[0]
+        sts = em.chains[ckey]
+        if root not in pull_roots or len(sts) == 1:
+            continue
+        st = sts[-1]
+        with_fee = without_fee = 0
+        for q in st.ok_paths():
+            sized_here = False
+            for e in q.events:
+                if e.target is not None and not getattr(e, "opened", False):
+                    rb, ew = sizes_from_balance(e.target)
+                    if rb and ew:
+                        sized_here = True
+            if sized_here:
+                if em.fee_calls(q):
+                    with_fee += 1
+                else:
+                    without_fee += 1
+        if with_fee + without_fee == 0:
+            continue
+        definite = with_fee > 0 and without_fee == 0
+        ctx.inst("R13.5", "sized-while-fees-attached:%s" % ckey, not definite, st.fn.where(),
+                 "%d payout paths forward fee coins in the same response, %d do not%s" % (with_fee, without_fee,
+                    ": every balance-sized payout of this step counts the trader's attached fee coins as vault money - under-funded on native, funded on cw20" if definite else ""))
+
     # exact match semantics of the check function
     chk = None
     for f in w.crate_fns(ENG):
